@@ -95,6 +95,23 @@ Drain(a) ==
                           !.marker = TRUE,
                           !.mq = IF ~ac[a].marker /\ ac[a].rxOpen THEN Append(@, DrainItem) ELSE @])
   /\ UNCHANGED <<nsent, ninj>>
+\* ActorCell::stop_children / drain_children: the child set is read under its lock and every child is stopped / drained
+\* in the same call (the *_and_wait variants then wait for each of them; they add nothing to the state)
+StopRec(r, reason) == [r EXCEPT !.stopRet = TRUE,
+                                !.stp = IF @ = "none" /\ r.rxOpen THEN "sent" ELSE @,
+                                !.stpReason = IF r.stp = "none" /\ r.rxOpen THEN reason ELSE @]
+DrainRec(r) == [r EXCEPT !.admClosed = TRUE,
+                         !.st = IF @ < Stopping THEN Max(@, Draining) ELSE @,
+                         !.marker = TRUE,
+                         !.mq = IF ~r.marker /\ r.rxOpen THEN Append(@, DrainItem) ELSE @]
+StopKids(a, reason) ==
+  /\ ac[a].pc # "none"
+  /\ ac' = [x \in Actors |-> IF ac[x].par = a /\ ac[x].pc # "none" THEN StopRec(ac[x], reason) ELSE ac[x]]
+  /\ UNCHANGED <<nsent, ninj>>
+DrainKids(a) ==
+  /\ ac[a].pc # "none"
+  /\ ac' = [x \in Actors |-> IF ac[x].par = a /\ ac[x].pc # "none" THEN DrainRec(ac[x]) ELSE ac[x]]
+  /\ UNCHANGED <<nsent, ninj>>
 \* ActorCell::monitor / unmonitor: `m` receives stripped copies of `a`'s lifecycle events
 Monitor(m, a) ==
   /\ m # a /\ ac[m].pc # "none" /\ ac[a].pc # "none"
@@ -120,6 +137,9 @@ Deliver(f, a, p, evt) ==
 EnvKill(a) == "kill" \in EnvOps[a] /\ Kill(a)
 EnvStop(a) == "stop" \in EnvOps[a] /\ Stop(a, "r")
 EnvDrain(a) == "drain" \in EnvOps[a] /\ Drain(a)
+\* (bounded for model checking: only while some child has not been stopped / drained yet)
+EnvStopKids(a) == "stopkids" \in EnvOps[a] /\ (\E c \in Actors : ac[c].par = a /\ ~ac[c].stopRet) /\ StopKids(a, "r")
+EnvDrainKids(a) == "drainkids" \in EnvOps[a] /\ (\E c \in Actors : ac[c].par = a /\ ~ac[c].admClosed) /\ DrainKids(a)
 \* JoinHandle::abort on the task that currently runs the actor (spawner helper or loop task)
 EnvAbort(a) ==
   /\ "abort" \in EnvOps[a] /\ Alive(a) /\ ac[a].abortReq = "none"
@@ -316,7 +336,7 @@ ActorStep(a) ==
   \/ JoinPg(a) \/ SigHandled(a) \/ PostStartBegin(a) \/ ListenStop(a) \/ TakeSup(a) \/ TakeMsg(a) \/ TakeDrain(a)
   \/ EnterSup(a) \/ EnterMsg(a) \/ DropUndecodable(a) \/ PostStopBegin(a) \/ AbortDrop(a) \/ Cleanup(a)
   \/ \E o \in Outcomes : PreEnd(a, o) \/ PostStartEnd(a, o) \/ HandlerEnd(a, o) \/ PostStopEnd(a, o)
-EnvStep(a) == \/ Send(a) \/ Inject(a) \/ EnvKill(a) \/ EnvStop(a) \/ EnvDrain(a) \/ EnvAbort(a)
+EnvStep(a) == \/ Send(a) \/ Inject(a) \/ EnvKill(a) \/ EnvStop(a) \/ EnvDrain(a) \/ EnvAbort(a) \/ EnvStopKids(a) \/ EnvDrainKids(a)
               \/ \E m \in Actors : <<m, a>> \in MonPairs /\ (Monitor(m, a) \/ Unmonitor(m, a))
 
 Next == \E a \in Actors : ActorStep(a) \/ EnvStep(a)
